@@ -118,7 +118,7 @@ def main(argv=None):
         except Exception as e:
             g.result['undecided'] = 'internal error: %s\n%s' % (e, traceback.format_exc())
         if ctx.verbose:
-            st = 'UNDECIDED' if 'undecided' in g.result else ('FAILED' if g.result.get('failed') else 'ok')
+            st = 'UNDECIDED' if 'undecided' in g.result else 'SKIPPED' if 'skipped' in g.result else ('FAILED' if g.result.get('failed') else 'ok')
             print('  [%s] %s%s %s %.1fs' % (st, g.name, '@be' if g.big_endian else '', g.result.get('engine', '-'),
                                             g.result.get('wall', 0)), flush=True)
         return g
@@ -131,6 +131,12 @@ def main(argv=None):
     known_lines = []
     rc = 0
     for g in groups:
+        if 'skipped' in g.result:
+            cov = [x for x in groups if x.name == g.covered_by]
+            if (cov and 'undecided' not in cov[0].result and 'skipped' not in cov[0].result) or (not cov and a.only):
+                print('SKIPPED property=%s group=%s: %s' % (pid, g.name, g.result['skipped']))
+                continue
+            g.result['undecided'] = g.result['skipped'] + ' -- but that group is not decided either'
         if 'undecided' in g.result:
             undecided.append(g)
             continue
